@@ -45,9 +45,43 @@ func (t *tr) leanType(e ast.Expr) string {
 			if u.Info()&types.IsInteger != 0 {
 				return "Int"
 			}
-		case *types.Interface:
+			if u.Info()&types.IsFloat != 0 {
+				return "Int" // modelling convention: metric values and priorities are exact integers
+			}
+		case *types.Interface, *types.Pointer:
 			return "Bool" // only ever compared with nil: the parameter means "is non-nil"
+		case *types.Struct:
+			if tv.Type.String() == "time.Time" {
+				return "Int" // a point in time, in nanoseconds
+			}
 		}
+	}
+	return ""
+}
+
+// selName names the parameter a selector expression stands for: the path of field names below the root identifier
+// (`resp.StatusCode` -> StatusCode, `reply.EventHarvestConfig.ReportPeriod` -> EventHarvestConfig_ReportPeriod), with
+// local bindings expanded and `h[i].F` -> F_i.
+func (t *tr) selName(e ast.Expr) string {
+	switch x := e.(type) {
+	case *ast.Ident:
+		if b, ok := t.binds[x.Name]; ok {
+			return t.selName(b)
+		}
+		return ""
+	case *ast.SelectorExpr:
+		p := t.selName(x.X)
+		if ix, ok := x.X.(*ast.IndexExpr); ok {
+			if id, ok := ix.Index.(*ast.Ident); ok {
+				return x.Sel.Name + "_" + id.Name
+			}
+		}
+		if p == "" {
+			return x.Sel.Name
+		}
+		return p + "_" + x.Sel.Name
+	case *ast.ParenExpr:
+		return t.selName(x.X)
 	}
 	return ""
 }
@@ -102,8 +136,13 @@ func (t *tr) intExpr(e ast.Expr) string {
 		if sel, ok := x.Fun.(*ast.SelectorExpr); ok && len(x.Args) == 0 {
 			return t.param(sel.Sel.Name, e)
 		}
+		if sel, ok := x.Fun.(*ast.SelectorExpr); ok && len(x.Args) == 1 && sel.Sel.Name == "Sub" {
+			if tv, ok := t.info.Types[sel.X]; ok && tv.Type != nil && tv.Type.String() == "time.Time" {
+				return fmt.Sprintf("(%s - %s)", t.intExpr(sel.X), t.intExpr(x.Args[0])) // time.Time.Sub: a duration in ns
+			}
+		}
 	case *ast.SelectorExpr:
-		return t.param(x.Sel.Name, e)
+		return t.param(t.selName(x), e)
 	case *ast.BinaryExpr:
 		switch x.Op {
 		case token.ADD, token.SUB, token.MUL:
@@ -139,7 +178,7 @@ func (t *tr) boolExpr(e ast.Expr) string {
 			return "(!" + t.boolExpr(x.X) + ")"
 		}
 	case *ast.SelectorExpr:
-		return t.param(x.Sel.Name, e)
+		return t.param(t.selName(x), e)
 	case *ast.CallExpr:
 		if sel, ok := x.Fun.(*ast.SelectorExpr); ok && len(x.Args) == 0 {
 			return t.param(sel.Sel.Name, e)
@@ -155,7 +194,7 @@ func (t *tr) boolExpr(e ast.Expr) string {
 				var name string
 				switch v := x.X.(type) {
 				case *ast.SelectorExpr:
-					name = v.Sel.Name
+					name = t.selName(v)
 				case *ast.Ident:
 					name = v.Name
 				default:
@@ -189,6 +228,17 @@ func (t *tr) stmts(list []ast.Stmt) string {
 	s, rest := list[0], list[1:]
 	cont := func() string { return t.stmts(rest) }
 	switch x := s.(type) {
+	case *ast.AssignStmt:
+		if x.Tok == token.DEFINE && len(x.Lhs) == 1 && len(x.Rhs) == 1 {
+			if id, ok := x.Lhs[0].(*ast.Ident); ok {
+				if _, again := t.binds[id.Name]; again {
+					return t.fail("%s bound twice", id.Name)
+				}
+				t.binds[id.Name] = x.Rhs[0]
+				return cont()
+			}
+		}
+		return t.fail("unsupported assignment")
 	case *ast.ReturnStmt:
 		if len(x.Results) != 1 {
 			return t.fail("return with %d results", len(x.Results))
